@@ -37,3 +37,18 @@ Theorem C01_base_product_roundtrip :
   deser_base_product (PDict kv) = Ok b.
 Proof. exact base_product_roundtrip. Qed.
 Print Assumptions C01_base_product_roundtrip.
+
+(* the per-architecture path tables of a variant *)
+From PM Require Import Proofs.PathsRoundtrip.
+Theorem C01_paths_roundtrip :
+  forall arches archs paths, strs_of (sort_set arches) = Some archs ->
+  deser_paths arches (ser_paths arches paths) = Ok (ser_paths_tab archs paths).
+Proof. exact paths_roundtrip. Qed.
+Print Assumptions C01_paths_roundtrip.
+
+Theorem C01_written_paths_are_the_truthy_entries_of_the_variants_arches :
+  forall archs paths name arch,
+  get2 (ser_paths_tab archs paths) name arch =
+  if existsb (fun p => str_eqb (fst p) arch && str_eqb (snd p) name) (pairs_of_arches archs) then path_val paths arch name else None.
+Proof. exact ser_paths_tab_get. Qed.
+Print Assumptions C01_written_paths_are_the_truthy_entries_of_the_variants_arches.
